@@ -65,3 +65,34 @@ func P3[A, B, C any](a A, b B, c C) Triple[A, B, C] { return Triple[A, B, C]{a, 
 // W tags a value with its static type (inserted by the contract sugar around
 // the operands of Eq and EqT).
 func W[T any](x T) any { return x }
+
+// LoopInv marks a loop cut point.  Calls are inserted by govc into an
+// in-memory copy of the source (never into the files of the repository):
+// inv is the loop invariant, dec the termination measure.
+func LoopInv(ordinal int, inv func() bool, dec func() int) {}
+
+// SameArray: the two slices share their backing array.
+func SameArray(a, b any) bool { panic("verifspec: ghost function") }
+
+// Input iterators (parameters of type fp.Iterator) are modelled as protocol
+// abiding sources over a finite sequence:
+// IterLen(it) its length, IterAt[T](it, i) its i-th element, IterPos(it) how
+// many elements have been pulled from it so far.
+func IterLen(it any) int            { panic("verifspec: ghost function") }
+func IterPos(it any) int            { panic("verifspec: ghost function") }
+func IterAt[T any](it any, i int) T { panic("verifspec: ghost function") }
+
+// Do runs a statement-like thunk inside an expression (for Panics / EqT).
+func Do(f func()) int { f(); return 0 }
+
+// Havoc replaces the private state reachable from the given values (the
+// variables captured by their closures, and the positions of the input
+// iterators they read) by arbitrary values: "any reachable state".  Used with
+// Assume(coupling invariant) in step lemmas about stateful iterators.
+func Havoc(roots ...any) {}
+
+// Assume restricts the rest of the lemma to executions where b holds.
+func Assume(b bool) {}
+
+// Cell reads the variable called name captured (transitively) by the closures of root.
+func Cell[T any](root any, name string) T { panic("verifspec: ghost function") }
